@@ -29,9 +29,10 @@ narrow phase `hit` and `urdf_utils.self_collision_whitelists` over an abstract `
                                colliding partners are on its own whitelist (this is why the
                                soundness statement has two disjuncts; not a violation).
 
-Not proved (named in the harness module's PARTIAL): that the *array-level* `insert_aabb`
-(C05's `insertLeaf`) implements the tree-layer insertion; it is checked at run time by
-`linkCheck` on the implementation's arrays.
+That the *array-level* `insert_aabb` (C05's `insertLeaf`) implements the tree-layer insertion,
+so that `linkCheck` holds by proof after `update_collider_poses` (and the theorems below hold
+without it as a hypothesis), is `D3.Properties.C06Link` (from `D3.Properties.C05Insert`); the
+harness still runs `linkCheck` on the implementation's dumped arrays as the model ↔ code tie.
 -/
 import D3.Proofs.BvhQuery
 import D3.Proofs.BvhUpdate
